@@ -215,6 +215,12 @@ func (c *callEngine) callWithStack(ctx context.Context, paramResultStack []uint6
 			return m.FailIfClosed()
 		default:
 		}
+		// The module may have been closed by another goroutine, or by the watcher of an outer invocation whose
+		// context the host function did not pass on: call entry is the only check point on a cycle that goes
+		// through a host function (guest -> host -> api.Function.Call -> guest).
+		if err := m.FailIfClosed(); err != nil {
+			return err
+		}
 	}
 
 	var paramResultPtr *uint64
